@@ -670,7 +670,9 @@ every serde trip appends another copy of the entries).  The four history theorem
 such models; the harness files the observed chain differences (multiplicity 3 vs 2) under that finding. -/
 def SerRoundTrip (s : Serde P I) : Prop := ∀ m : Rec I, s.ser (s.de (s.ser m)) = s.ser m
 
-/-- Contract on the IR-level transformations: they see of a model only what serialises. -/
+/-- Contract on the IR-level transformations: they see of a model only what serialises.  (On the real code this
+holds only up to auto-generated node names `node_<Op>_<n>`: the naming counter lives in the in-memory model and does
+not serialise — observed by the history stream, which ignores exactly that difference.) -/
 def Extensional (s : Serde P I) (T : Api → Opts W → Rec I → Rec I) : Prop :=
   ∀ (f : Api) (o : Opts W) (m₁ m₂ : Rec I), s.ser m₁ = s.ser m₂ → s.ser (T f o m₁) = s.ser (T f o m₂)
 
